@@ -27,12 +27,13 @@ RULES = {
 # (profile, opts) per tier and the finding kinds each property owns
 COMMON_DEATH = {"crash", "fuel"}
 MIX = ("mix", {"long_inputs": True, "unicode_heavy": True, "ws_inject": True}, 0.6)
+SUITE = ("suite", {}, 1.0)  # the repository's own grammars (test suite + grammar.ebnf), read by the real front end
 MIXT = ("mix", {"long_inputs": True, "unicode_heavy": True, "ws_inject": True}, 1.0)
 CONF = {
     "C01": dict(kinds={"accept", "consumed", "fn"} | COMMON_DEATH,
-                quick=[("core", {}, 0.8), ("unicode", {"unicode_heavy": True}, 0.4), MIX], thorough=[("core", {}, 1.0), ("errors", {}, 0.5), ("fields", {}, 0.5), ("unicode", {"unicode_heavy": True}, 0.5), MIXT]),
+                quick=[("core", {}, 0.8), ("unicode", {"unicode_heavy": True}, 0.4), MIX, SUITE], thorough=[("core", {}, 1.0), ("errors", {}, 0.5), ("fields", {}, 0.5), ("unicode", {"unicode_heavy": True}, 0.5), MIXT, SUITE]),
     "C02": dict(kinds={"tree", "substring"},
-                quick=[("fields", {}, 0.6), ("dupfields", {}, 0.6), ("userfn", {}, 0.4), MIX], thorough=[("fields", {}, 1.0), ("dupfields", {}, 1.0), ("core", {}, 1.0), ("include", {}, 0.3), ("userfn", {}, 0.5), ("unicode", {"unicode_heavy": True}, 0.3), MIXT]),
+                quick=[("fields", {}, 0.6), ("dupfields", {}, 0.6), ("userfn", {}, 0.4), MIX, SUITE], thorough=[("fields", {}, 1.0), ("dupfields", {}, 1.0), ("core", {}, 1.0), ("include", {}, 0.3), ("userfn", {}, 0.5), ("unicode", {"unicode_heavy": True}, 0.3), MIXT, SUITE]),
     "C04": dict(kinds={"panic", "crash", "boundary", "substring"},
                 quick=[("unicode", {"unicode_heavy": True}, 1.0), MIX], thorough=[("unicode", {"unicode_heavy": True}, 1.0), ("userfn", {"unicode_heavy": True}, 0.3), MIXT]),
     "C05": dict(kinds={"accept", "consumed", "tree", "variant"} | COMMON_DEATH,
@@ -41,20 +42,20 @@ CONF = {
     "C06": dict(kinds={"memo_bound"},
                 quick=[("memofail", {}, 1.0), MIX], thorough=[("memofail", {}, 1.0), ("memo", {}, 0.5), MIXT]),
     "C07": dict(kinds={"accept", "consumed", "tree", "position", "fn"} | COMMON_DEATH,
-                quick=[("leftrec", {}, 1.0), MIX], thorough=[("leftrec", {}, 1.0), ("position", {}, 0.3), MIXT]),
+                quick=[("leftrec", {}, 1.0), MIX, SUITE], thorough=[("leftrec", {}, 1.0), ("position", {}, 0.3), MIXT, SUITE]),
     "C08": dict(kinds={"accept", "consumed", "tree", "fn", "position"},
-                quick=[("ws", {"ws_inject": True}, 1.0), MIX], thorough=[("ws", {"ws_inject": True}, 1.0), ("include", {"ws_inject": True}, 0.3), MIXT]),
+                quick=[("ws", {"ws_inject": True}, 1.0), MIX, SUITE], thorough=[("ws", {"ws_inject": True}, 1.0), ("include", {"ws_inject": True}, 0.3), MIXT, SUITE]),
     "C09": dict(kinds={"position", "boundary"},
-                quick=[("position", {}, 1.0), MIX], thorough=[("position", {}, 1.0), ("ws", {"ws_inject": True}, 0.3), MIXT]),
+                quick=[("position", {}, 1.0), MIX, SUITE], thorough=[("position", {}, 1.0), ("ws", {"ws_inject": True}, 0.3), MIXT, SUITE]),
     "C10": dict(kinds={"errpos", "errpos_far", "errspec", "errspec_sentinel"},
-                quick=[("errors", {}, 0.8), ("leftrec", {}, 0.3), MIX], thorough=[("errors", {}, 1.0), ("core", {}, 1.0), ("leftrec", {}, 0.5), ("memo", {}, 0.3), MIXT]),
+                quick=[("errors", {}, 0.8), ("leftrec", {}, 0.3), MIX, SUITE], thorough=[("errors", {}, 1.0), ("core", {}, 1.0), ("leftrec", {}, 0.5), ("memo", {}, 0.3), MIXT, SUITE]),
     "C13": dict(kinds={"variant", "accept", "tree", "position"},
                 quick=[("include", {"inline_variants": True, "grammar_scale": 0.6}, 1.0)],
                 thorough=[("include", {"inline_variants": True, "grammar_scale": 0.6}, 1.0)]),
     "C14": dict(kinds={"userfn", "accept", "tree", "consumed"},
                 quick=[("userfn", {}, 1.0), MIX], thorough=[("userfn", {}, 1.0), ("errors", {}, 0.5), MIXT]),
     "C19": dict(kinds={"trace_eq", "trace_balance", "crash", "fuel", "panic"},
-                quick=[("trace", {"long_inputs": True}, 1.0), MIX], thorough=[("trace", {"long_inputs": True}, 1.0), ("core", {"long_inputs": True}, 1.0), ("leftrec", {}, 1.0), ("userfn", {}, 1.0), ("unicode", {"long_inputs": True, "unicode_heavy": True}, 0.3), MIXT]),
+                quick=[("trace", {"long_inputs": True}, 1.0), MIX, SUITE], thorough=[("trace", {"long_inputs": True}, 1.0), ("core", {"long_inputs": True}, 1.0), ("leftrec", {}, 1.0), ("userfn", {}, 1.0), ("unicode", {"long_inputs": True, "unicode_heavy": True}, 0.3), MIXT, SUITE]),
 }
 
 
